@@ -79,7 +79,8 @@ def main():
                 res = core.execute(engine, world, rng=rng, nops=nops, repo_root=REPO)
                 out = summarize(res, r, time.monotonic() - t0, cmd.get("want_ops", False))
                 out["world"] = world
-                if res.violation is not None and not cmd.get("no_min"):
+                if res.violation is not None and not cmd.get("no_min") and \
+                        res.violation.oracle not in cmd.get("no_min_oracles", ()):
                     sig = res.violation.signature()
                     ops0 = res.ops
                     faulthandler.cancel_dump_traceback_later()
